@@ -642,3 +642,102 @@ func (w *World) EstabBurst(peers []string, reqs []*SessReq) [][]pfcpx.Dgram {
 
 	return out
 }
+
+// newToks registers every session token that appears in the tables but was never reported in a response
+// (entries a mutated message may have created) and returns them.
+func (w *World) newToks() []string {
+	out := []string{}
+	t := w.Bess.Snapshot()
+	seen := map[uint64]bool{}
+	add := func(v uint64) {
+		if v == 0 || seen[v] {
+			return
+		}
+
+		seen[v] = true
+
+		if len(w.UpTok.Get(v)) > 6 && w.UpTok.Get(v)[:6] == "alien:" {
+			out = append(out, w.UpTok.Reg(v))
+		}
+	}
+
+	for _, e := range t.Pdr {
+		add(e.Valuesv[1])
+	}
+
+	for _, e := range t.Far {
+		add(e.Fields[1])
+	}
+
+	for _, e := range t.AppQer {
+		add(e.Fields[2])
+	}
+
+	for _, e := range t.SessQer {
+		add(e.Fields[1])
+	}
+
+	return out
+}
+
+// Inject sends arbitrary bytes from the peer and records whatever comes back (C01).
+func (w *World) Inject(peer, what string, raw []byte) []pfcpx.Dgram {
+	p := w.Peer(peer)
+	p.Drain()
+
+	before := w.EventCount("conn.shutdown.done", p.LocalAddr())
+	_ = p.SendRaw(raw)
+	p.WaitN(1, 25*time.Millisecond)
+	w.settle(p, true, 3*time.Millisecond)
+
+	ds := p.Drain()
+
+	for _, d := range ds {
+		// the datagram was (still) a valid Association Release Request: the teardown runs after the response;
+		// a datagram sent into the closing socket would be lost, so wait for its end like the Release step does
+		if d.TypeNum == int(message.MsgTypeAssociationReleaseResponse) {
+			if !w.WaitEventCount("conn.shutdown.done", p.LocalAddr(), before+1, 400*time.Millisecond) {
+				time.Sleep(40 * time.Millisecond)
+			}
+		}
+	}
+
+	resps := []map[string]interface{}{}
+
+	for _, d := range ds {
+		resps = append(resps, w.respJSON(d))
+	}
+
+	toks := w.newToks()
+	t := w.Bess.Snapshot()
+	w.collectMarkers(time.Time{})
+	w.emit(map[string]interface{}{"ev": "inject", "peer": p.Name, "what": what, "len": len(raw), "resps": resps, "newToks": toks, "dp": w.dpJSON(), "cmds": t.Cmds, "errs": t.Errs})
+	w.Steps++
+	w.CheckAlive()
+
+	return ds
+}
+
+// Cleanup releases the association of a peer after an injection; nothing is asserted about it.
+func (w *World) Cleanup(peer string) {
+	p := w.Peer(peer)
+	p.Drain()
+
+	before := w.EventCount("conn.shutdown.done", p.LocalAddr())
+	_ = p.Send(message.NewAssociationReleaseRequest(p.NextSeq(), ie.NewNodeID(p.NodeID, "", "")))
+
+	if p.WaitN(1, 300*time.Millisecond) {
+		if !w.WaitEventCount("conn.shutdown.done", p.LocalAddr(), before+1, 400*time.Millisecond) {
+			time.Sleep(40 * time.Millisecond)
+		}
+	}
+
+	w.settle(p, true, 2*time.Millisecond)
+	p.Drain()
+
+	toks := w.newToks()
+	t := w.Bess.Snapshot()
+	w.collectMarkers(time.Time{})
+	w.emit(map[string]interface{}{"ev": "cleanup", "peer": p.Name, "newToks": toks, "dp": w.dpJSON(), "cmds": t.Cmds, "errs": t.Errs})
+	w.CheckAlive()
+}
